@@ -151,11 +151,56 @@ def r156(ctx, fx):
                     "renaming a constant defined after a loop rewrites `index`", ads.where)
 
 
+def r157(ctx, fx):
+    rid = ctx.rule("R15.7", "the scope recorded with a usage is the scope the symbol is *defined* in: in Analysis::add_symbol_usage the `parent_scope` of the "
+                   "DefinitionLocation handed to add_usage is bound from `SymbolTable::parent(nx)` of the very index the usage is recorded for. rename_edits "
+                   "renames the edge `parent_scope → symbol` for every usage; with the scope a path segment was *looked up* in, that edge is the alias of a "
+                   "`name as alias` import, and renaming the imported symbol rewrites the alias' usages to a name that does not exist there")
+    f = fx.fn("mos_core::codegen::analysis::Analysis::add_symbol_usage")
+    if f is None or not f.d.get("hir"):
+        ctx.fail_closed(rid, "Analysis::add_symbol_usage not found")
+        return
+    body = f.hir["body"]
+    lits = [x for x in lib.hwalk(body) if x.get("k") == "struct" and str((x.get("res") or {}).get("path", "")).endswith("DefinitionLocation")]
+    key = "add_symbol_usage|parent_scope"
+    if not lits:
+        ctx.fail_closed(rid, "no DefinitionLocation built in add_symbol_usage")
+        return
+    # bindings by name and line (the dump names locals)
+    binds = []
+    for n in lib.hwalk(body):
+        if n.get("k") in ("let", "letx") and "init" in n:
+            for q in lib.hwalk(n["pat"]):
+                if q.get("k") == "bind":
+                    binds.append((q["name"], q.get("ln") or 0, n["init"]))
+    sym_nx = {lib.hpath(lib.hargs(x)[0]) for x, p in lib.hir_calls(body) if p and p.endswith("DefinitionType::Symbol") and lib.hargs(x)}
+    bad = 0
+    for lit in lits:
+        fe = [fl["e"] for fl in lit.get("fields", []) if fl.get("name") == "parent_scope"]
+        if not fe:
+            continue
+        name = lib.hpath(fe[0])
+        c = [b for b in binds if b[0] == name and b[1] <= (lit.get("ln") or 10 ** 9)]
+        init = max(c, key=lambda b: b[1])[2] if c else None
+        ok = False
+        if init is not None:
+            i = lib.strip(init)
+            if i.get("k") == "mcall" and str(i.get("path", "")).endswith("SymbolTable::<S>::parent") or (i.get("k") == "mcall" and i.get("name") == "parent"):
+                ok = lib.hpath(i["args"][0]) in sym_nx if i.get("args") else False
+        ctx.inst(rid, key, sample={"parent_scope_bound_from": repr(lib.hdesc(init))[:120] if init is not None else None, "symbol_index": sorted(x for x in sym_nx if x)})
+        if not ok:
+            bad += 1
+            ctx.finding(rid, "%s#%d" % (key, bad), "a usage is recorded with a parent_scope that is not `symbols.parent(<the symbol>)` (%s): for a symbol that is reachable "
+                        "under another name (`.import data as bytes`) this is the scope of the alias, and rename rewrites `bytes` to the new name of `data`" % (
+                            repr(lib.hdesc(init))[:80] if init is not None else name), "%s:%s" % (f.file, lit.get("ln")))
+
+
 def run(ctx):
     fx = ctx.facts
     cg = lib.CallGraph(fx)
     r155(ctx, fx)
     r156(ctx, fx)
+    r157(ctx, fx)
     r161(ctx, fx, "R15.1")
     r162(ctx, fx, cg, "R15.2")
     r163(ctx, fx, "R15.3")
